@@ -720,6 +720,41 @@ static void sec_c_realloc_null(vf::Ctx& c) {
     c.nontrivial("reallocnull:" + std::to_string(c.idx));
 }
 
+// ---- section: a global designation registered AFTER some allocations were already made (complete small table).
+// "the n-th allocation overall": the index counts every allocation since the allocator was created or cleared,
+// whether or not a designation was pending at the time. Two designations, registered at different moments.
+static void sec_late_global(vf::Ctx& c) {
+    uint64_t i = c.idx;
+    int before = (int) (i % 7); i /= 7;          // allocations before the first designation
+    int d1 = 1 + (int) (i % 4); i /= 4;          // first designation: overall index before + d1
+    int gap = (int) (i % 3); i /= 3;             // allocations between the two registrations
+    int d2 = 1 + (int) (i % 3); i /= 3;          // second designation: (allocations so far) + d2 (skipped when it coincides with the first)
+    bool cleared_first = i & 1;                   // run a consumed designation + clearFailedAllocs() before the scenario (counter restarts at 0)
+    c.begin([=] { return vf::J().k("allocations_before_first_designation", before).k("first_designation_overall_index", before + d1).k("allocations_between_registrations", gap)
+                  .k("second_designation_offset", d2).k("after_clear", cleared_first).str(); });
+    FailableMemoryAllocator a("late", "lalloc", "lfree");
+    std::vector<char*> blocks;
+    auto alloc = [&](int line) { char* p = a.alloc_memory(8, "late.c", (size_t) line); if (p) blocks.push_back(p); return p != nullptr; };
+    if (cleared_first) { alloc(1); a.failAllocNumber(2); alloc(2); alloc(3); a.clearFailedAllocs(); }
+    int n = 0; std::set<int> want;
+    for (int k = 0; k < before; k++) { n++; if (!alloc(10)) c.violation("late-global:undesignated-failed:before-any-designation", "allocation " + std::to_string(n) + " returned NULL although nothing is designated"); }
+    int n1 = before + d1; a.failAllocNumber(n1); want.insert(n1);
+    int made = 0;
+    while (made < gap && n + 1 < n1) { n++; made++; if (!alloc(11)) c.violation("late-global:undesignated-failed:between-registrations", "allocation " + std::to_string(n) + " returned NULL, designated is " + std::to_string(n1)); }
+    int n2 = n + d2; if (n2 != n1) { a.failAllocNumber(n2); want.insert(n2); }
+    int last = *want.rbegin() + 2;
+    while (n < last) {
+        n++;
+        bool ok = alloc(12), designated = want.count(n) != 0;
+        if (designated && ok) c.violation("late-global:designated-succeeded", "allocation " + std::to_string(n) + " overall is designated (designations " + std::to_string(n1) + (n2 != n1 ? "," + std::to_string(n2) : "") + ", " + std::to_string(before) + " allocations preceded the first registration) but succeeded");
+        if (!designated && !ok) c.violation("late-global:undesignated-failed", "allocation " + std::to_string(n) + " overall returned NULL, designated are " + std::to_string(n1) + (n2 != n1 ? "," + std::to_string(n2) : ""));
+    }
+    a.clearFailedAllocs();
+    for (char* p : blocks) a.free_memory(p, 8, "late.c", 99);
+    c.count("late_global_designation_cases");
+    if (before > 0) c.nontrivial("late" + std::to_string(c.idx));
+}
+
 int main(int argc, char** argv) {
     for (int i = 0; i < 128; i++) SRC[i] = (char) ('a' + (i * 7) % 26);
     SRC[128] = 0;
@@ -728,6 +763,7 @@ int main(int argc, char** argv) {
         { "fault_enumeration", enum_total, enum_total, sec_fault_enum, true },
         { "c_countdown_enumeration", cenum_total, cenum_total, sec_c_enum, true },
         { "c_realloc_null_in_oom", 24, 24, sec_c_realloc_null, true },
+        { "global_designation_after_earlier_allocations", 7 * 4 * 3 * 3 * 2, 7 * 4 * 3 * 3 * 2, sec_late_global, true },
         { "failable_direct_random", 20000, 300000, sec_direct_random, false },
         { "failable_installed_random", 16000, 250000, sec_installed_random, false },
         { "c_countdown_random", 8000, 120000, sec_c_random, false },
